@@ -409,9 +409,19 @@ func (c *client40) send(f failer, r *seqRequest40) *nfsv4.Compound4res {
 	if mc.Active("C19") {
 		before := w.snapshot()
 		res2 := w.compound(0, r.what+"(retransmitted)", r.build(next)...)
-		if consumed(st) && r.idx < len(res.Resarray) {
-			if r.idx >= len(res2.Resarray) || !bytes.Equal(encodeOp(res.Resarray[r.idx]), encodeOp(res2.Resarray[r.idx])) {
+		// (If the retransmitted COMPOUND fails before it reaches the
+		// sequenced operation, e.g. because PUTFH of a meanwhile
+		// unlinked and closed file fails, there is no reply to
+		// compare.)
+		if consumed(st) && r.idx < len(res.Resarray) && r.idx < len(res2.Resarray) {
+			if !bytes.Equal(encodeOp(res.Resarray[r.idx]), encodeOp(res2.Resarray[r.idx])) {
 				f.FailP("C19", "retransmission-different-reply/"+r.kind, "retransmitted %s: first reply status %d, second reply status %d, XDR bytes differ", r.what, st, opStatus(res2, r.idx))
+			} else if (r.kind != "OPEN" || w.strictOpenReplay) && !bytes.Equal(encodeRes(res), encodeRes(res2)) {
+				// The sequenced operation was answered from the
+				// replay cache, but the operations after it in
+				// the same COMPOUND (GETFH) see a different
+				// current filehandle than the first time.
+				f.FailP("C19", "retransmission-different-compound/"+r.kind, "retransmitted COMPOUND with %s: the %s result is repeated, but the rest of the reply differs: first %d results status %d [%x], second %d results status %d [%x]", r.what, r.kind, len(res.Resarray), res.Status, encodeRes(res), len(res2.Resarray), res2.Status, encodeRes(res2))
 			}
 		}
 		if after := w.snapshot(); after != before {
